@@ -279,10 +279,9 @@ theorem allM_tag_rows (s : Str) : ∀ (cnt : Nat) (rest : Str) (pos f2 : Nat), r
       have hsp : s.drop p = rs := by rw [drop_of_drop s rest pos p hs hp, hrs]
       have hd : rest.drop ((mkM p rs n v r7).span.2 - pos) = r7 := by
         show rest.drop (p + rs.length - r7.length - pos) = r7
-        have := shape_drop _ _ _ _ sh
-        rw [hrs, List.drop_drop] at this
-        rw [← this]; congr 1
-        rw [← hrs]; omega
+        have e : p + rs.length - r7.length - pos = (p - pos) + (rs.length - r7.length) := by omega
+        rw [e, ← List.drop_drop, ← hrs]
+        exact shape_drop _ _ _ _ sh
       have hs2 : s.drop (mkM p rs n v r7).span.2 = r7 := by
         rw [drop_of_drop s rest pos _ hs (by show pos ≤ p + rs.length - r7.length; omega), hd]
       simp only [hft, List.map_cons, hd]
